@@ -314,7 +314,8 @@ theorem Inv.replace {y : Sys} (h : Inv y) {c c' : Client} (hc : c ∈ y.clients)
     have : hasBuf (setClient y c') e'.key = hasBuf y e'.key := hasBuf_congr hsh e'.key
     rw [this]; exact h.cbuf e' he'
 
-theorem Inv.next {y : Sys} (h : Inv y) (id : Nat) : Inv (next y id).1 := by
+theorem Inv.next {y : Sys} (h : Inv y) (id : Nat) (hz : ∀ c, getClient y id = some c → c.authz = .all) :
+    Inv (next y id).1 := by
   unfold CV.Stream.next CV.Stream.nextWith
   cases hg : getClient y id with
   | none => exact h
@@ -344,7 +345,7 @@ theorem Inv.next {y : Sys} (h : Inv y) (id : Nat) : Inv (next y id).1 := by
       cases hin : c.inbox with
       | nil => exact h
       | cons st rest =>
-        simp only
+        simp only [hz c hg, visible_all]
         have hs := h.sim c hc hsub
         rw [hin] at hs
         obtain ⟨-, hex, hrest⟩ := hs
@@ -362,8 +363,8 @@ theorem Inv.expire {y : Sys} (h : Inv y) : Inv (expire y) := by
   unfold CV.Stream.expire
   exact ⟨h.wf, h.hok, h.exact, h.sim, (by intro e he; cases he), (by intro e he; cases he), h.ids⟩
 
-theorem Inv.addClient {y : Sys} (h : Inv y) (id : Nat) (k : Key) (t : String) (r : Bool) :
-    Inv (addClient y id k t r) := by
+theorem Inv.addClient {y : Sys} (h : Inv y) (id : Nat) (k : Key) (t : String) (r : Bool) (a : Authz) :
+    Inv (addClient y id k t r a) := by
   unfold CV.Stream.addClient
   cases hg : getClient y id with
   | some c => simpa using h
